@@ -151,7 +151,7 @@ def fileName (start : Bytes) (v : Visit Attr) : Bytes :=
 
 /-! ### -printf rendering -/
 
-namespace Printf'
+namespace PrintfR
 open FuModel.Find.Printf
 
 
@@ -212,7 +212,7 @@ def render (start : Bytes) (v : Visit Attr) : List Comp → Bytes
      | none => [])
   | .other _ _ _ :: _ => []
 
-end Printf'
+end PrintfR
 
 /-! ### -exec -/
 
@@ -344,7 +344,7 @@ def sem (start : Bytes) (v : Visit Attr) (p : Prim) (s : ES) : Bool × ES :=
   | .lname l => (fileType v == 'l' && (attrOf v).target == l, s)
   | .pathOut pre term => (true, { s with gs := { s.gs with out := s.gs.out ++ pre ++ path ++ term } })
   | .lit b => (true, { s with gs := { s.gs with out := s.gs.out ++ b } })
-  | .printf comps _ => (true, { s with gs := { s.gs with out := s.gs.out ++ Printf'.render start v comps } })
+  | .printf comps _ => (true, { s with gs := { s.gs with out := s.gs.out ++ PrintfR.render start v comps } })
   | .prune => (true, if fileType v == 'd' then { s with prune := true } else s)
   | .quit => (true, { s with quit := true })
   | .delete =>
